@@ -275,11 +275,18 @@ func openState(v avfs.VFS, st int) (f avfs.File, err error) {
 // file system are probed again.
 func HFile(kind, st, m, pre int) {
 	v := newFS(kind)
-	f, openErr := openState(v, st)
 	name := fileMethods[m]
 	label := hx.KindName(kind) + "|File." + name + "|" + handleStates[st]
 	if pre == 1 {
 		label += "|after-seek"
+	}
+	sym.Label(label + "|open")
+	var f avfs.File
+	var openErr error
+	ores := sym.Outcome(func() { f, openErr = openState(v, st) })
+	sym.Assert(!ores.Panicked, "C07|"+hx.KindName(kind)+"|open-handle|"+handleStates[st]+"|panic|"+ores.Class+"|"+ores.Site)
+	if ores.Panicked {
+		return
 	}
 	sym.Label(label)
 	if f == nil {
